@@ -212,8 +212,8 @@ End Prims.
 (* tactics                                                             *)
 (* ------------------------------------------------------------------ *)
 Ltac pcbn :=
-  cbn [p_stack p_locals p_frames p_pers p_mailbox p_result p_sel p_await
-       set_stack set_locals set_frames set_mailbox set_result set_sel set_await
+  cbn [p_stack p_locals p_frames p_pers p_mailbox p_result p_sel p_await p_unreported
+       set_stack set_locals set_frames set_mailbox set_result set_sel set_await set_unreported
        ss_frame ss_instr ss_sources ss_cursors ss_start ss_recv
        set_cursor set_recv live_cursor].
 
@@ -265,7 +265,7 @@ Qed.
 Lemma complete_select_G fx result o h0 p0 h p :
   StX o h0 p0 [] h p -> G o h0 p0 (complete_select fx result h p).
 Proof.
-  intro S. destruct p as [st lo fr pe mb rs se aw].
+  intro S. destruct p as [st lo fr pe mb rs se aw ur].
   unfold complete_select. apply G_mget; cbv beta. apply G_mput; cbv beta. pcbn.
   destruct se as [[sf si srcs cur start recv]|]; pcbn.
   - apply G_assoc. destruct fx.
@@ -304,7 +304,7 @@ Proof. intro HI. apply Good_G. apply complete_select_G. apply StX_init. exact HI
 Lemma select_continuation_G o h0 p0 h p :
   StX o h0 p0 [] h p -> G o h0 p0 (select_continuation h p).
 Proof.
-  intro S. destruct p as [st lo fr pe mb rs se aw].
+  intro S. destruct p as [st lo fr pe mb rs se aw ur].
   unfold select_continuation. apply G_mget; cbv beta. pcbn.
   destruct se as [[sf si srcs cur start recv]|]; pcbn; [|apply G_end_val; exact S].
   destruct (negb _); [apply G_end_err; exact S|].
@@ -332,7 +332,7 @@ Qed.
 Lemma take_message_G idx o h0 p0 h p :
   StX o h0 p0 [] h p -> G o h0 p0 (take_message idx h p).
 Proof.
-  intro S. destruct p as [st lo fr pe mb rs se aw].
+  intro S. destruct p as [st lo fr pe mb rs se aw ur].
   unfold take_message. apply G_mget; cbv beta. pcbn.
   destruct (nth_error mb idx) as [m|] eqn:E; [|apply G_end_val; exact S].
   apply G_mput; cbv beta. apply G_ret_end.
@@ -383,7 +383,7 @@ Lemma initialize_select_G pid now o h0 p0 h p :
   p_sel p = None ->
   StX o h0 p0 [] h p -> G o h0 p0 (initialize_select true pid now h p).
 Proof.
-  intros SE S. destruct p as [st lo fr pe mb rs se aw]. cbn [p_sel] in SE. subst se.
+  intros SE S. destruct p as [st lo fr pe mb rs se aw ur]. cbn [p_sel] in SE. subst se.
   unfold initialize_select. apply G_raw_pop_req. pcbn.
   destruct st as [|v st]; [exact S|]. cbv zeta. apply G_mget; cbv beta. pcbn.
   pose proof (refs_sources v) as RS.
@@ -444,7 +444,7 @@ Example initialize_select_refuted :
     end.
 Proof.
   exists [], wit_heap,
-    (mkProc [VProc 7 0] [] [wit_frame] false [] None None [(7, Some (VBin 0))]), 0, 0%Z.
+    (mkProc [VProc 7 0] [] [wit_frame] false [] None None [(7, Some (VBin 0))] []), 0, 0%Z.
   split; [apply wit_Inv; reflexivity|]. split; [reflexivity|].
   apply wit_not_Inv. reflexivity.
 Qed.
@@ -460,7 +460,7 @@ Example initialize_select_over_refuted :
     end.
 Proof.
   exists [], wit_heap,
-    (mkProc [VInt 0] [] [wit_frame] false [] None (Some (mkSel 0 0 [VBin 0] [] None None)) []),
+    (mkProc [VInt 0] [] [wit_frame] false [] None (Some (mkSel 0 0 [VBin 0] [] None None)) [] []),
     0, 0%Z.
   split; [apply wit_Inv; reflexivity|].
   apply wit_not_Inv. reflexivity.
@@ -470,7 +470,7 @@ Qed.
    the displaced result is released and the invariant holds afterwards *)
 Example initialize_select_fixed_ex :
   match initialize_select true 0 0%Z wit_heap
-          (mkProc [VProc 7 0] [] [wit_frame] false [] None None [(7, Some (VBin 0))]) with
+          (mkProc [VProc 7 0] [] [wit_frame] false [] None None [(7, Some (VBin 0))] []) with
   | MVal (Some (AAwait [7] 0)) h' p' => rc_at h' 0 = 0 /\ p_await p' = [(7, None)]
   | _ => False
   end.
@@ -488,7 +488,7 @@ Lemma call_receive_function_G ridx midx msg src x o h0 p0 h p :
   p_sel p <> None ->
   StX o h0 p0 [] h p -> G o h0 p0 (call_receive_function true P ridx midx msg src x h p).
 Proof.
-  intros SE S. destruct p as [st lo fr pe mb rs se aw]. cbn [p_sel] in SE.
+  intros SE S. destruct p as [st lo fr pe mb rs se aw ur]. cbn [p_sel] in SE.
   destruct se as [[sf si srcs cur start recv]|]; [clear SE|congruence].
   unfold call_receive_function.
   t_retain (refs_of msg). apply G_mget; cbv beta. pcbn.
@@ -526,7 +526,7 @@ Example call_receive_refuted :
     end.
 Proof.
   exists [], wit_heap,
-    (mkProc [] [] [wit_frame] false [] None (Some (mkSel 0 0 [] [0] None (Some (1, VBin 0)))) []),
+    (mkProc [] [] [wit_frame] false [] None (Some (mkSel 0 0 [] [0] None (Some (1, VBin 0)))) [] []),
     0, 0, (VInt 5), (VInt 0), (Build_hext None false [] 0%Z).
   split; [apply wit_Inv; reflexivity|]. split; [discriminate|].
   apply wit_not_Inv. reflexivity.
@@ -571,7 +571,7 @@ Proof.
   destruct (negb (is_nil verdict)).
   - cbv [mbind mget mret]. pose proof (take_message_sel (live_cursor p ridx) h p) as T.
     destruct (take_message (live_cursor p ridx) h p); try exact I. rewrite T. exact SE.
-  - destruct p as [st lo fr pe mb rs se aw]. cbn [p_sel] in SE.
+  - destruct p as [st lo fr pe mb rs se aw ur]. cbn [p_sel] in SE.
     destruct se as [[sf si srcs cur start recv]|]; [clear SE|congruence].
     cbv [mbind mget mret mput mpanic m_release mheap_]. pcbn.
     destruct (length cur <=? ridx); [exact I|].
@@ -586,7 +586,7 @@ Proof.
   - apply G_mget; cbv beta.
     eapply G_call; [exact S|intro; apply take_message_good; assumption|].
     intros a h9 p9 S9. apply G_end_val. exact S9.
-  - apply G_mget; cbv beta. destruct p as [st lo fr pe mb rs se aw]. pcbn.
+  - apply G_mget; cbv beta. destruct p as [st lo fr pe mb rs se aw ur]. pcbn.
     destruct se as [[sf si srcs cur start recv]|]; pcbn.
     + destruct (length cur <=? ridx); [apply G_panic_bind|].
       apply G_assoc. apply G_mput; cbv beta.
@@ -607,7 +607,7 @@ Lemma scan_mailbox_sel ridx src sc x msgs : forall idx cursor h p, p_sel p <> No
   end.
 Proof.
   induction msgs as [|m rest IH]; intros idx cursor h p SE; cbn [scan_mailbox].
-  - destruct p as [st lo fr pe mb rs se aw]. cbn [p_sel] in SE.
+  - destruct p as [st lo fr pe mb rs se aw ur]. cbn [p_sel] in SE.
     destruct se as [[sf si srcs cur start recv]|]; [clear SE|congruence].
     cbv [mbind mget mret mput]. pcbn.
     destruct (sc <? cursor); [destruct (ridx <? length cur)|]; pcbn; discriminate.
@@ -621,7 +621,7 @@ Lemma scan_mailbox_G ridx src sc x msgs : forall idx cursor o h0 p0 h p,
   StX o h0 p0 [] h p -> G o h0 p0 (scan_mailbox true P ridx src sc x msgs idx cursor h p).
 Proof.
   induction msgs as [|m rest IH]; intros idx cursor o h0 p0 h p SE S; cbn [scan_mailbox].
-  - apply G_mget; cbv beta. destruct p as [st lo fr pe mb rs se aw].
+  - apply G_mget; cbv beta. destruct p as [st lo fr pe mb rs se aw ur].
     destruct se as [[sf si srcs cur start recv]|]; pcbn;
       [|destruct (sc <? cursor); apply G_mret; apply G_end_val; exact S].
     destruct (sc <? cursor); [|apply G_mret; apply G_end_val; exact S].
@@ -722,28 +722,32 @@ Proof.
   unfold handle_select.
   eapply G_call; [exact S|intro; apply select_continuation_good; assumption|].
   intros rr h9 p9 S9. apply G_mget; cbv beta.
-  destruct p9 as [st lo fr pe mb rs se aw]. pcbn.
+  destruct p9 as [st lo fr pe mb rs se aw ur]. pcbn.
   destruct se as [[sf si srcs cur start recv]|].
   - assert (K : forall m : M (option action),
                m = (let start0 := match ss_start (mkSel sf si srcs cur start recv) with
                                   | Some t => t | None => hx_now x end in
                     let ss' := mkSel sf si srcs cur (Some start0) recv in
-                    mput (set_sel (mkProc st lo fr pe mb rs (Some (mkSel sf si srcs cur start recv)) aw)
+                    mput (set_sel (mkProc st lo fr pe mb rs (Some (mkSel sf si srcs cur start recv)) aw ur)
                                   (Some ss')) ;;;
                     select_sources true P ss' rr start0 (hx_now x) x (ss_sources ss') 0) ->
-               G o h p (m h9 (mkProc st lo fr pe mb rs (Some (mkSel sf si srcs cur start recv)) aw))).
+               G o h p (m h9 (mkProc st lo fr pe mb rs (Some (mkSel sf si srcs cur start recv)) aw ur))).
     { intros m ->. cbv zeta. apply G_mput; cbv beta.
       apply select_sources_G; [pcbn; discriminate|t_done]. }
-    destruct rr as [v|]; apply K; reflexivity.
-  - destruct rr as [v|]; [apply G_end_err; exact S9|].
-    apply initialize_select_G; [reflexivity|exact S9].
+    (* 8388832: with unreported awaits the select only re-parks: no heap reference moves *)
+    destruct ur as [|u ur'].
+    + destruct rr as [v|]; pcbn; apply K; reflexivity.
+    + destruct rr as [v|]; pcbn; apply G_end_val; exact S9.
+  - destruct rr as [v|].
+    + pcbn. destruct ur as [|u ur']; [apply G_end_err; exact S9|apply G_end_val; exact S9].
+    + apply initialize_select_G; [reflexivity|exact S9].
 Qed.
 End Sel.
 
 (* non-vacuity: a select state holding slot 0 completes with an integer; the source is released *)
 Example complete_select_ex :
   match complete_select true (VInt 1) wit_heap
-          (mkProc [] [] [wit_frame] false [] None (Some (mkSel 0 0 [VBin 0] [] None None)) []) with
+          (mkProc [] [] [wit_frame] false [] None (Some (mkSel 0 0 [VBin 0] [] None None)) [] []) with
   | MVal None h' p' => rc_at h' 0 = 0 /\ p_sel p' = None /\ p_stack p' = [VInt 1] /\ pending h' = [0]
   | _ => False
   end.
@@ -754,13 +758,13 @@ Proof. vm_compute. repeat split; reflexivity. Qed.
 Example complete_select_forgets :
   match complete_select true (VInt 1) wit_heap
           (mkProc [] [] [wit_frame] false [] None (Some (mkSel 0 0 [VProc 7 0] [] None None))
-                  [(7, Some (VBin 0))]) with
+                  [(7, Some (VBin 0))] []) with
   | MVal None h' p' => rc_at h' 0 = 0 /\ p_await p' = [] /\ pending h' = [0]
   | _ => False
   end /\
   match complete_select false (VInt 1) wit_heap
           (mkProc [] [] [wit_frame] false [] None (Some (mkSel 0 0 [VProc 7 0] [] None None))
-                  [(7, Some (VBin 0))]) with
+                  [(7, Some (VBin 0))] []) with
   | MVal None h' p' => rc_at h' 0 = 1 /\ p_await p' = [(7, Some (VBin 0))]
   | _ => False
   end.
